@@ -109,9 +109,9 @@ fn main() {
         Tier::Thorough => {
             for src in 0..fam.len() {
                 let dmax = match fam[src].name {
-                    // two demotions on the three sources that between them exercise every dynamic rule
-                    "J0" | "J1" | "J2" => 2,
-                    "J3" | "J5" | "K1" => 1,
+                    // two demotions on the two sources that between them exercise every dynamic rule
+                    "J0" | "J1" => 2,
+                    "J2" | "J3" | "J5" | "K1" => 1,
                     // the biggest sources: the default schedules of both base orders (every access pair is judged by the
                     // happens-before monitor there)
                     _ => 0,
@@ -124,6 +124,7 @@ fn main() {
                 if fam[src].name == "J1" {
                     plans.push(Plan { src, k: 2, main_last: false, dmax: 2 });
                 }
+                let _ = big;
             }
         }
     }
@@ -208,13 +209,12 @@ fn main() {
             "pairs_with_a_dynamic_first_job": m.pairs_dynamic, "pairs_explored_with_a_lagging_static_job": m.pairs_needing_a_lagging_static_job,
             "scheduler_thread_accesses_not_ordered_with_a_job": m.scheduler_access_notes.iter().map(|(v, _)| v.clone()).collect::<Vec<_>>()}));
     }
-    // SAFETY: single-threaded here; the exploration's worker processes inherit it
-    unsafe { std::env::set_var("VERIF_VRT_CONFORM", "1") };
+
     let mut totals = ExploreStats::default();
     let mut per_plan = vec![];
     let mut samples = vec![];
     let mut all_exhaustive = true;
-    let budget_s = args.tier.pick(150.0, 2400.0) * vcore::budget_scale();
+    let budget_s = args.tier.pick(150.0, 3000.0) * vcore::budget_scale();
     let t0 = std::time::Instant::now();
     for (pi, plan) in plans.iter().enumerate() {
         let src = &fam[plan.src];
@@ -234,7 +234,9 @@ fn main() {
         let mut plan_stats = ExploreStats::default();
         for d in 0..=plan.dmax {
             let remaining = budget_s - t0.elapsed().as_secs_f64();
-            let share = remaining / ((plans.len() - pi) as f64);
+            // a plan with two demotions is about ten times the work of one with one
+            let weight = |p: &Plan| if p.dmax >= 2 { 10.0 } else { 1.0 };
+            let share = remaining * weight(plan) / plans[pi..].iter().map(weight).sum::<f64>();
             let cfg = ExploreCfg {
                 run: RunCfg { dmax: d, ..base.clone() },
                 threads: vcore::ncores(),
@@ -242,6 +244,14 @@ fn main() {
                 deadline: Some(std::time::Instant::now() + std::time::Duration::from_secs_f64(share.max(5.0))),
                 visited: None,
             };
+            // every execution of the d <= 1 levels is recorded and replayed against the abstract model; the d = 2 level
+            // (tens of thousands of executions) runs without the recording, which costs a factor of about five
+            // SAFETY: single-threaded here; the worker processes started by explore_mp inherit the variable
+            if d <= 1 {
+                unsafe { std::env::set_var("VERIF_VRT_CONFORM", "1") };
+            } else {
+                unsafe { std::env::remove_var("VERIF_VRT_CONFORM") };
+            }
             let st = vrt::explore_mp(&cfg, &worker_arg, sc.path());
             let mut bad = false;
             let mk_replay = |choices: &Vec<usize>| {
